@@ -144,12 +144,18 @@ static carquet_status_t dict_builder_add(dict_builder_t* builder,
     builder->buckets[bucket] = new_entry;
 
     /* Add to dictionary buffer */
+    carquet_status_t status = CARQUET_OK;
     if (builder->is_variable_length) {
         /* Write length prefix */
         uint32_t len = (uint32_t)value_size;
-        carquet_buffer_append_u32_le(&builder->dict_buffer, len);
+        status = carquet_buffer_append_u32_le(&builder->dict_buffer, len);
     }
-    carquet_buffer_append(&builder->dict_buffer, value, value_size);
+    if (status == CARQUET_OK) {
+        status = carquet_buffer_append(&builder->dict_buffer, value, value_size);
+    }
+    if (status != CARQUET_OK) {
+        return status;
+    }
 
     builder->indices[builder->indices_count++] = new_entry->index;
     builder->count++;
@@ -197,17 +203,21 @@ carquet_status_t carquet_dictionary_encode_int32(
     }
 
     /* Copy dictionary */
-    carquet_buffer_append(dict_output, builder.dict_buffer.data, builder.dict_buffer.size);
+    status = carquet_buffer_append(dict_output, builder.dict_buffer.data, builder.dict_buffer.size);
 
     /* Encode indices with RLE */
     int bit_width = bit_width_for_count((uint32_t)builder.count);
 
     /* Write bit width byte */
     uint8_t bw = (uint8_t)bit_width;
-    carquet_buffer_append_byte(indices_output, bw);
+    if (status == CARQUET_OK) {
+        status = carquet_buffer_append_byte(indices_output, bw);
+    }
 
     /* RLE encode indices */
-    status = carquet_rle_encode_all(builder.indices, count, bit_width, indices_output);
+    if (status == CARQUET_OK) {
+        status = carquet_rle_encode_all(builder.indices, count, bit_width, indices_output);
+    }
 
     dict_builder_destroy(&builder);
     return status;
@@ -236,12 +246,16 @@ carquet_status_t carquet_dictionary_encode_int64(
         }
     }
 
-    carquet_buffer_append(dict_output, builder.dict_buffer.data, builder.dict_buffer.size);
+    status = carquet_buffer_append(dict_output, builder.dict_buffer.data, builder.dict_buffer.size);
 
     int bit_width = bit_width_for_count((uint32_t)builder.count);
     uint8_t bw = (uint8_t)bit_width;
-    carquet_buffer_append_byte(indices_output, bw);
-    status = carquet_rle_encode_all(builder.indices, count, bit_width, indices_output);
+    if (status == CARQUET_OK) {
+        status = carquet_buffer_append_byte(indices_output, bw);
+    }
+    if (status == CARQUET_OK) {
+        status = carquet_rle_encode_all(builder.indices, count, bit_width, indices_output);
+    }
 
     dict_builder_destroy(&builder);
     return status;
@@ -270,12 +284,16 @@ carquet_status_t carquet_dictionary_encode_float(
         }
     }
 
-    carquet_buffer_append(dict_output, builder.dict_buffer.data, builder.dict_buffer.size);
+    status = carquet_buffer_append(dict_output, builder.dict_buffer.data, builder.dict_buffer.size);
 
     int bit_width = bit_width_for_count((uint32_t)builder.count);
     uint8_t bw = (uint8_t)bit_width;
-    carquet_buffer_append_byte(indices_output, bw);
-    status = carquet_rle_encode_all(builder.indices, count, bit_width, indices_output);
+    if (status == CARQUET_OK) {
+        status = carquet_buffer_append_byte(indices_output, bw);
+    }
+    if (status == CARQUET_OK) {
+        status = carquet_rle_encode_all(builder.indices, count, bit_width, indices_output);
+    }
 
     dict_builder_destroy(&builder);
     return status;
@@ -304,12 +322,16 @@ carquet_status_t carquet_dictionary_encode_double(
         }
     }
 
-    carquet_buffer_append(dict_output, builder.dict_buffer.data, builder.dict_buffer.size);
+    status = carquet_buffer_append(dict_output, builder.dict_buffer.data, builder.dict_buffer.size);
 
     int bit_width = bit_width_for_count((uint32_t)builder.count);
     uint8_t bw = (uint8_t)bit_width;
-    carquet_buffer_append_byte(indices_output, bw);
-    status = carquet_rle_encode_all(builder.indices, count, bit_width, indices_output);
+    if (status == CARQUET_OK) {
+        status = carquet_buffer_append_byte(indices_output, bw);
+    }
+    if (status == CARQUET_OK) {
+        status = carquet_rle_encode_all(builder.indices, count, bit_width, indices_output);
+    }
 
     dict_builder_destroy(&builder);
     return status;
@@ -335,12 +357,16 @@ carquet_status_t carquet_dictionary_encode_byte_array(
         }
     }
 
-    carquet_buffer_append(dict_output, builder.dict_buffer.data, builder.dict_buffer.size);
+    status = carquet_buffer_append(dict_output, builder.dict_buffer.data, builder.dict_buffer.size);
 
     int bit_width = bit_width_for_count((uint32_t)builder.count);
     uint8_t bw = (uint8_t)bit_width;
-    carquet_buffer_append_byte(indices_output, bw);
-    status = carquet_rle_encode_all(builder.indices, count, bit_width, indices_output);
+    if (status == CARQUET_OK) {
+        status = carquet_buffer_append_byte(indices_output, bw);
+    }
+    if (status == CARQUET_OK) {
+        status = carquet_rle_encode_all(builder.indices, count, bit_width, indices_output);
+    }
 
     dict_builder_destroy(&builder);
     return status;
